@@ -526,7 +526,11 @@ def run(ctx):
                         "context switching, stacks and descriptor-pool reuse are outside the model (pool disjointness is C14)",
                         "sub-team leaders spawn runtime-internal watcher tasks: scenarios with them are checked by the oracle only",
                         "ready-queue order is abstracted (bag of nodes with stealable bits); order is C08's subject"]
-    verdict(ctx, "C04", [pr], corr, orc)
+    # ---- extension M (progress): composed kernel + queue model, end-of-run obligation quiescent_ok, failed spawns
+    import sys
+    from . import _c04_progress
+    pr_p, corr_p, orc_p = _c04_progress.run(ctx, sys.modules[__name__])
+    verdict(ctx, "C04", [pr, pr_p], corr + corr_p, orc + orc_p)
 
 
 def replay(ctx, path):
